@@ -7,7 +7,7 @@
 # On success copies patch.diff, demo/, notes.md into /verif/seeded/<seeded_id>/ and writes verify.json there.
 set -u
 SRC="${1:?deliver dir}"; ID="${2:?seeded id}"
-VW=/tmp/vw
+VW="${VW:-/tmp/vw}"
 export CARGO_NET_OFFLINE=true CARGO_TARGET_DIR=$VW/target
 LOG=/tmp/vw_logs/$ID; mkdir -p "$LOG"
 cd $VW || exit 2
